@@ -6,14 +6,44 @@ package c21
 import (
 	"testing"
 
+	"github.com/elastos/Elastos.ELA/common"
 	"pgregory.net/rapid"
 	"verifharness/lib/vk"
+	"verifharness/statekit"
 	"verifharness/statekit/rbk"
 )
 
 func TestMain(m *testing.M) { vk.Main(m, "C21") }
 
 func TestRollbackEqualsDirect(t *testing.T) {
-	cfg := rbk.Config{Prop: "C21", Side: rbk.DPoS, Eras: rbk.ErasFromEnv([]int{0, 1, 1, 2, 2, 2})}
+	cfg := rbk.Config{Prop: "C21", Side: rbk.DPoS, Eras: rbk.ErasFromEnv([]int{0, 1, 1, 2, 2, 2, 3, 3}),
+		Profile: func(t *rapid.T, p *statekit.Profile, era statekit.Era) {
+			if era >= statekit.EraV2 {
+				// vote weights are log10(lock/720): allow locks long enough to make
+				// a producer "effective" so that DPoS 2.0 can become active
+				p.DPoSV2MaxVotesLockTime = 100000
+				p.DPoSV2EffectiveVotes = common.Fixed64(rapid.SampledFrom([]int64{80, 800}).Draw(t, "effective")) * statekit.ELA
+				if rapid.Bool().Draw(t, "fewnormal") {
+					p.NNormal = 2
+				}
+			}
+		},
+		Kinds: func(g *statekit.Gen, era statekit.Era) {
+			if era >= statekit.EraV2 {
+				// stake / voting / DPoS 2.0 registration kinds of the C28 builder
+				g.AddKinds(statekit.C28Kinds())
+				g.NProducers = 12
+				g.MaxTxs = 4
+				statekit.SetC28Drive(g, true)
+				v2 := statekit.C28Kinds()
+				g.Boost = func(kind string) int {
+					if _, ok := v2[kind]; ok && g.K.Height+1 >= g.K.Params.DPoSV2StartHeight {
+						return 3
+					}
+					return 1
+				}
+			}
+		},
+		Done: func(g *statekit.Gen) { statekit.SetC28Drive(g, false) }}
 	rapid.Check(t, func(t *rapid.T) { rbk.Run(t, cfg) })
 }
